@@ -258,8 +258,12 @@ class Gen:
             return {"k": "insert", "table": "nosuch", "cols": [], "rows": [[1]]}
         name = self.rng.choice(names)
         cols = self.tables[name]
-        if r < 0.5:
+        if r < 0.4:
             return {"k": "create", "table": name, "cols": cols}           # duplicate table
+        if r < 0.5:
+            # a column name used twice (new or existing table name): refused before any change
+            dup = [("d0", "int", 0), (self.rng.choice(["d1", "d0"]), "varchar", 10), ("d0", "int", 0)]
+            return {"k": "create", "table": self.rng.choice([name, "dupcols"]), "cols": dup}
         if r < 0.75:
             return {"k": "insert", "table": name, "cols": [], "rows": [[1] * (len(cols) + 1)]}   # count mismatch
         # type mismatch in the first (only) row
